@@ -61,6 +61,21 @@ Proof.
 Qed.
 Print Assumptions C18_check_future_secret.
 
+(** Channels are named by (peer id, dbid); the channel id is an injective function of that
+    pair on all 64-bit dbids, and it is one of the id shapes [C18_distinct] speaks about.  So
+    two channels of any peers with different (peer, dbid) have different ids, hence (by
+    [C18_distinct]) different keys. *)
+Theorem C18_channel_id_injective :
+  forall (p1 p2 : bytes) (d1 d2 : N),
+    length p1 = 33%nat -> length p2 = 33%nat -> d1 < two64 -> d2 < two64 ->
+    chan_id_of p1 d1 = chan_id_of p2 d2 -> p1 = p2 /\ d1 = d2.
+Proof. intros. apply chan_id_of_inj; congruence. Qed.
+Print Assumptions C18_channel_id_injective.
+
+Theorem C18_channel_id_is_api_id :
+  forall (peer : bytes) (dbid : N), length peer = 33%nat -> 0 < dbid < two64 -> api_id (chan_id_of peer dbid).
+Proof. exact chan_id_of_api. Qed.
+
 (** Different channel ids (of the shapes the API produces) give different keys, provided the
     hash parameters are injective where they are used: the per-channel HKDF in its salt (after
     the LDK mask for the Ldk style), the 192-byte expansion in its key, SHA-256 on its inputs.
@@ -204,6 +219,13 @@ Example C18_check_future_nonvacuous :
   x_check_future cseed 1 (secret_at cseed 2) = false /\
   x_check_future cseed 281474976710655 (secret_at cseed 281474976710655) = true.
 Proof. vm_compute. repeat split. Qed.
+
+(** dbids that agree in their low 32 bits are different channels *)
+Example C18_channel_id_high_bits :
+  chan_id_of (repeat_bytes 33 [2]) 7 <> chan_id_of (repeat_bytes 33 [2]) (7 + 4294967296) /\
+  skipn 33 (chan_id_of (repeat_bytes 33 [2]) (7 + 4294967296)) = [7; 0; 0; 0; 1; 0; 0; 0] /\
+  skipn 33 (chan_id_of (repeat_bytes 33 [2]) 18446744073709551615) = [255; 255; 255; 255; 255; 255; 255; 255].
+Proof. vm_compute. repeat split. discriminate. Qed.
 
 Example C18_tree_nonvacuous :
   let seed := repeat_bytes 32 [9] in
